@@ -3,13 +3,13 @@ SPEC = {
     "id": "C10",
     "coq_targets": ["theories/Snap/Props_C10.vo", "theories/Snap/Cases_C10.vo", "theories/Snap/Findings.vo"],
     "props": "theories/Snap/Props_C10.v",
-    "harness": [{"bin": "h_snap_token", "n": {"quick": 640, "thorough": 6000},
+    "harness": [{"bin": "h_snap_token", "n": {"quick": 760, "thorough": 6000},
                  "known_bits": {16: "C10-malformed-aud"}}],
     "rule": "v0 and v1 SNAP tokens minted with the crate's constant test key and a second untrusted key; every single-field mutation of header (alg, kid, typ, extra member), of every claim (removed, retyped to each JSON kind, retimed to now-3600..now+3600 as integer and float), ver, aud, duplicates, PSSID shapes, signature damage, header/payload/signature splicing between two valid tokens, base64 padding/alphabet variants, wrong segment counts; then random combinations of 1-3 mutations and random strings; each run against SnapTokenVerifier::verify and against the real router (AuthMiddleware + register handler, lifetime recorded); a case is distinct by its construction (label, members, signature treatment)",
     "assumptions": ["clock between 1970-01-01T00:01:00Z and 2^63 s",
                     "string -> (header members, payload members) parsing, Ed25519, Uuid::parse_str and base64url of the v1 PSSID are oracles supplied with each token",
                     "the verifier reads the system clock: correspondence cases keep every time >= 30 s away from the leeway edge; the edge itself is covered by the theorem only",
-                    "JWKS key resolution is modelled (kid -> key map) and covered by the theorems; the correspondence runs the static-key configuration only (JwksKeyStore needs an HTTP endpoint)"],
+                    "JWKS key resolution is modelled as a kid -> key map (the result of JwksKeyStore::await_key); the correspondence runs both the static-key configuration (verify + router) and a configuration with a real JwksKeyStore fed from a loopback HTTP endpoint (verify only; skipped and counted as jwks.unavailable if loopback HTTP is not possible)"],
     "trusted_extra": ["vendored jsonwebtoken source (version pinned by /repo/Cargo.lock) read by tools/gen.d/snap.py for the Validation defaults"],
 }
 def main(argv): vlib.standard_main(SPEC, argv)
